@@ -143,6 +143,8 @@ class SimNode:
             'ops': ops,
             'ctx': {'counters': {p: a['counter'] for p, a in self.accounts.items()}, 'tracked': dict(self.tracked)},
         }
+        if self.cfg.get('big_map_snapshots'):
+            blk['ctx']['big_maps'] = json.loads(json.dumps(self.big_maps))  # what this block's context holds
         self.blocks.append(blk)
         self.by_hash[blk['hash']] = blk
         self.stats['blocks_baked'] += 1
@@ -267,6 +269,8 @@ class SimNode:
             for pkh in self.accounts:
                 if self.counter_read_epoch.get(pkh) is not None and self.counter_read_epoch[pkh] != self.acct_epoch.get(pkh, 0):
                     self.race_tainted[pkh] = True
+            if getattr(self, 'on_pending_read', None):
+                self.on_pending_read()
             return core.Reply.js(self._pending_json())
         if path == '/chains/main/mempool/filter' and method == 'GET':
             mode = self.cfg.get('filter_rpc', 'default')
@@ -356,7 +360,11 @@ class SimNode:
             return self._run_operation(blk, req)
         m = re.match(r'^/context/big_maps/(-?\d+)/([^/]+)$', rest)
         if m:
-            bm = self.big_maps.get(int(m.group(1)))
+            store = self.big_maps
+            if blk is not self.head and blk['ctx'].get('big_maps') is not None:
+                store = {int(k): v for k, v in blk['ctx']['big_maps'].items()}  # a read addressed to an older block sees that block's context
+                self.stats['big_map_read_at_old_block'] += 1
+            bm = store.get(int(m.group(1)))
             if bm is None or m.group(2) not in bm:
                 return core.Reply.text('', 404)
             return core.Reply.js(bm[m.group(2)])
@@ -443,7 +451,13 @@ class SimNode:
                 res = {'status': 'failed', 'errors': failed}
                 self.stats['run_operation_counter_failed'] += 1
             else:
-                res = {'status': 'applied', 'consumed_milligas': str(p.get('milligas', 100000))}
+                mg = p.get('milligas', 100000)
+                drift = int(self.cfg.get('gas_drift_milligas_per_block', 0) or 0)
+                if drift:
+                    # the contract's state grows with the chain: the same call costs a little more at every new head
+                    hard_mg = int((self.cfg.get('constants') or {}).get('hard_gas_limit_per_operation', CONSTANTS['hard_gas_limit_per_operation'])) * 1000 // max(1, len(contents))
+                    mg = min(hard_mg, mg + drift * self.head['level'])
+                res = {'status': 'applied', 'consumed_milligas': str(mg)}
                 if p.get('paid'):
                     res['paid_storage_size_diff'] = str(p['paid'])
                 if p.get('alloc'):
